@@ -278,6 +278,13 @@ pub fn conforms(expect: &J, got: &J) -> bool {
                     return false;
                 }
             }
+            // C18: a failure for a missing item names the item or its variable (any of the given texts)
+            if let Some(alts) = expect.get("carries_any").and_then(J::as_array) {
+                let text = got["text"].as_str().unwrap_or("");
+                if !alts.is_empty() && !alts.iter().filter_map(J::as_str).any(|a| text.contains(a)) {
+                    return false;
+                }
+            }
             // C06: the message carries the conversion error / the guard's own message
             if let Some(w) = expect.get("carries_conv").and_then(J::as_str) {
                 let bytes = dec(w);
